@@ -71,7 +71,8 @@ def oracle(ck, base, mode):
                 # "about 20 degrees": for strongly elongated cells (aspect > 2) on grids a few cells wide the centred
                 # finite difference itself is only that accurate; allow 25 there
                 asp_ = max(b["meta"]["d"]) / min(b["meta"]["d"])
-                if np.median(ang) > (20.0 if asp_ <= 2.0 else 25.0):
+                # (the targeted anisotropic cases are fixed inputs on 5- and 6-cell grids that stay below 20)
+                if np.median(ang) > (20.0 if (asp_ <= 2.0 or b["meta"].get("targeted")) else 25.0):
                     ck.violation("gradient direction disagrees with the finite-difference gradient of the traveltimes",
                                  {"case": _enc(b), "mode": mode, "median_angle_deg": float(np.median(ang)),
                                   "max_angle_deg": float(ang.max())})
